@@ -52,13 +52,13 @@ claim("C08", "proof",
 claim("C09", "proof",
       "Proved for every WriteAt site and their callers up to Flush: writes go only at offsets >= the size at entry, every byte below it is unchanged (samePrefix), other files are untouched; "
       "the read paths under contract (scan, itemLoc.read, nodeLoc.read, GetItem, walk, GetTotals, split/join/union) have the empty write effect by their frame conditions; the single Truncate site is FlushRevert's (exactly once, at a valid root or 0, never on a read-only snapshot).",
-      A_E2E + A_COMMON + " Not decided: CopyTo and the visits (not under contract).")
+      A_E2E + A_COMMON + " Not decided: CopyTo (not under contract).")
 
 claim("C07", "proof",
       "Proved for the functions under contract (codecs, scan/open, writers, Flush, FlushRevert, GetItem, Get, SetItem, Set, Delete, walk, MinItem, MaxItem, GetTotals, union, split, join): every file error is propagated "
-      "(ghost counter io.fails: if it grew, the error result is non-nil) -- this found D5 (repaired); failed writes leave size/locations unchanged; a failed SetItem/Delete leaves the published root and its denotation unchanged; "
+      "(ghost counter io.fails: if it grew, the error result is non-nil) -- this found D5 (repaired); failed writes leave size/locations unchanged; every location that a write assigns lies below the store's size at the end of every writer up to Flush, on failure paths too (so a retried Flush never overwrites a record that is still referenced); a failed SetItem/Delete leaves the published root and its denotation unchanged; "
       "no reachable panic (nil dereference, index, slice, explicit panic) under the stated preconditions; every loop and recursion has a variant.",
-      A_E2E + A_COMMON + A_TREE + " Known findings (recorded, not repaired): D6 reclaim marks left behind by a failed SetItem/Delete, D9 Exist swallows read errors. Not decided: visits, CopyTo, 'after the fault clears' histories.")
+      A_E2E + A_COMMON + A_TREE + " Known findings (recorded, not repaired): D6 reclaim marks left behind by a failed SetItem/Delete, D9 Exist swallows read errors. Not decided by proof: CopyTo; 'after the fault clears' histories are covered by the bounded fault harness only (which retries a failed Flush on the same store).")
 
 claim("C12", "proof",
       "Proved: SetCollection/RemoveCollection/GetCollection against a finite-map model of the store's collection map (new name => fresh empty collection; existing name => same version object, "
@@ -113,7 +113,7 @@ claim("C06", "proof",
       "Proved over a ghost visit log (the visitor contract appends key position, abstract item, depth and has-value flag for each call; returning false sets a stop flag): visitNodes, for both choice functions, delivers only items of the tree in the requested range "
       "(ascend: key >= target; descend: key < target), each with the item stored under that key, its true depth (depth + depthIn) and a value when requested, in strictly ascending/descending order, and -- unless a visitor call returned false or an error occurred -- every key of the range (existential witness in the log); "
       "a false return stops the visit (no further visitor call can follow: the stop flag is a postcondition). VisitItemsAscendEx/DescendEx/Ascend/Descend carry the same clauses from the collection's current root; the order-checking wrapper and the depth-dropping adapters are verified against the visitor contract they are handed to visitNodes under; newIterator carries target and value mode to the producer.",
-      A_E2E + A_COMMON + A_TREE + " The iterators' producer/consumer goroutines are outside the subset (only newIterator is under contract); the link 'a closure verified against clauses X is used where the functype contract X is assumed' is by construction of the contract file, not checked by the engine; visitors are neutral (A9: they only write the ghost log).")
+      A_E2E + A_COMMON + A_TREE + " The iterators' producer/consumer goroutines are outside the subset (only newIterator is under contract); visitors are neutral (A9: they only write the ghost log).")
 
 claim("C18", "other",
       "Sequential obligations only: every visit entry point (VisitItemsAscend/Descend and the Ex variants, which the iterator's producer runs) releases the version it pinned on every path, error paths included (rootNodeLoc.refs is unchanged at exit: a postcondition), "
@@ -122,9 +122,16 @@ claim("C18", "other",
       A_COMMON + " Why bounded: goroutines and channel operations are outside the verifier's subset; the harness does NOT enumerate scheduler interleavings (each case is repeated), so 'for all schedules' is not decided -- a model checker would be the fitting tool for that clause.")
 
 claim("C16", "other",
-      "Two parts, labelled separately. PROVED (obligations): Len cannot panic at any size (the nil item of an empty collection is handled -- D2 found by the nil-dereference obligation and repaired), releases the reference MinItem takes (D12, repaired), reads no value byte and changes no version; its counting visitor counts every call and satisfies the visitor contract; determineBlocks yields at most 1024 blocks of positive length. "
-      "BOUNDED (stand-in, not a proof): Len() == n and 'every key exactly once' for VisitItemsAscendBlockEx (5 block permutations) and VisitItemsRandom are decided by running the real functions for every size n in 0..48 and around 1024 and 2048 (thorough: 0..200 and around 1024, 2048, 3072, 4096) -- this found D3 (VisitItemsRandom repeats the last item when the last block is partial), repaired.",
-      A_COMMON + " Why bounded: the block visits and Len thread closure state (counters, the block table) through the visit recursion via callbacks; carrying such an invariant needs a higher-order (visitor-invariant) contract that the first-order per-function contracts of this technique do not have.")
+      "Two parts, labelled separately. PROVED (obligations): Len() == cnt(T), the number of items of the tree denoted by the collection's current root, for every size (postcondition length-is-the-number-of-items). "
+      "The count is carried through the visit by a VISITOR INVARIANT: the counting closure's contract defines vinv(self, z) := (l - vis.n == z && !vis.stop) (`tracks`), the visitor function-type contract says every call of any visitor preserves its vinv for every z, "
+      "visitNodes and VisitItemsAscendEx (whose order-checking wrapper's invariant is 'an error is recorded, or the inner visitor's invariant') are proved to preserve their visitor's invariant, so after the visit l equals the number of log entries and the visit was not stopped; "
+      "the visit contracts give that the log is strictly increasing, holds only keys of T and holds every key of T (MinItem is proved to return the least key, whose order position is the target), and lemma L3 (such a log has cnt(T) entries; proved in Lean, /verif/lean/LemmaL.lean) closes the argument. "
+      "Also proved: Len cannot panic at any size (D2, repaired), releases the reference MinItem takes (D12, repaired), reads no value byte, changes no version; determineBlocks yields at most 1024 blocks of positive length and reports blocks only for a non-empty collection; "
+      "VisitItemsAscendBlockEx, VisitItemsRandom, their four closures and RandBm are under thin contracts: no reachable panic (the 'impossible' panic, the nil item, every index into the block table: closure invariants over captured variables are asserted where the closure is made and re-proved at its exit), file errors propagate, the reference MinItem takes is released, no version changes, and every item the caller's visitor is presented is an item of the collection (with its value when asked for). "
+      "BOUNDED (stand-in, not a proof): 'every item exactly once' for VisitItemsAscendBlockEx (5 block permutations, plus complete inner enumerations run from the outer enumeration's visitor) and VisitItemsRandom (and, again, Len() == n end to end) are decided by running the real functions for every size n in 0..48 and around 1024 and 2048 (thorough: 0..200 and around 1024, 2048, 3072, 4096) -- this found D3 (VisitItemsRandom repeats the last item when the last block is partial), repaired.",
+      A_COMMON + " Why the exactly-once clause of the block visits stays bounded: it needs arithmetic over positions in the log (every (lenBlock+1)-th key starts a block; a block's visit delivers the keys between two starts) for which no lemma is stated; the visitor-invariant mechanism now exists, the sequence lemmas do not. "
+      "Assumed for the visitor invariants: a function value's invariant depends only on cells that existed when the value was made (footprint axiom), callees do not retain function values beyond the call (their frames would show it), "
+      "and a captured variable's invariant (`captures`) is stable between the closure's creation and its calls against writes by the enclosing function (asserted at creation, re-proved at the closure's exit, not re-checked in between).")
 
 claim("C11", "other",
       "Two parts, labelled separately. PROVED (obligations) for CopyTo's building blocks: MinItem returns the least key, VisitItemsAscendEx from it hands the visitor every item exactly once in order with its value, SetItem stores exactly the handed item under its key, EvictSomeItems changes no version and no slot denotation (and evicts nothing on a read-only store), and every one of them leaves the source's versions untouched. "
